@@ -9,12 +9,14 @@ outputs:
 
 * no operation may panic;
 * a data segment that violates the protocol (`Spec.mustReject`, evaluated on a ghost view that is
-  maintained from the wire bytes only) must be refused;
+  maintained from the wire bytes only, plus the segment size the implementation reports) must be refused;
 * the messages fetched at an end are a prefix of the reassembly of the segments that end accepted
   (`Spec.Reasm`), byte-identical — nothing corrupted, duplicated or reordered;
 * an end never has more unacknowledged segments in flight than the negotiated window;
 * when an acknowledgement is pending and the deadline has passed, `is_ack_due` answers yes and the
   pump emits it (if the send window has room);
+* the connection idle timeout (`Btp::timeout`) is compared with the model's `isTimedOut` and may fire
+  only while a segment is awaiting an acknowledgement;
 * kind `l` (two well-behaved ends): no operation fails, and the messages fetched at one end are a
   prefix of the messages accepted for sending at the other end.
 -/
@@ -43,7 +45,7 @@ def hex (bs : List Nat) : String :=
 structure Ghost where
   dead : Bool := false
   hasWindow : Bool := false
-  view : Spec.View := { lastSeq := 255, window := 0, unackedRx := 0, lastSent := 255, outstanding := 0, remaining := 0 }
+  view : Spec.View := { lastSeq := 255, window := 0, unackedRx := 0, lastSent := 255, outstanding := 0, remaining := 0, segSize := 0 }
   reasm : Spec.Reasm := {}
   submitted : List (List Nat) := []
   fetched : List (List Nat) := []
@@ -130,7 +132,7 @@ def onRx (g : Ghost) (seg : List Nat) (implOk : Bool) (now : Nat) : Ghost × Opt
           | .ok r =>
             ({ g with hasWindow := true, reasm := {}, fetched := [], fetchedCaps := [],
                       view := { lastSeq := 0, window := r.windowSize, unackedRx := 0, lastSent := 255,
-                                outstanding := 0, remaining := 0 } }, none)
+                                outstanding := 0, remaining := 0, segSize := 0 } }, none)
           | .error _ => (g, none)
         else
           -- responder: the negotiated window is learnt from the response it emits (`onTx`); until
@@ -138,12 +140,14 @@ def onRx (g : Ghost) (seg : List Nat) (implOk : Bool) (now : Nat) : Ghost × Opt
           let rw := match decodeReq payload with | .ok q => q.windowSize | .error _ => 0
           ({ g with hasWindow := false, reasm := {}, fetched := [], fetchedCaps := [],
                     view := { lastSeq := 255, window := rw, unackedRx := 0, lastSent := 255,
-                              outstanding := 0, remaining := 0 } }, none)
+                              outstanding := 0, remaining := 0, segSize := 0 } }, none)
       else (g, none)
     else
-      let must := Spec.mustReject g.view h payload
+      -- the negotiated segment size is the one the implementation reports (field 0 of its state)
+      let must := g.impl.length == 14 &&
+        Spec.mustReject { g.view with segSize := g.impl.getD 0 0 } h payload
       if implOk then
-        let why := if must then some s!"accepted a protocol-violating segment (seq={h.seqNum} ack={h.getAck} beg={h.beg} fin={h.fin} len={h.msgLen} payload={payload.length} view={repr g.view})" else none
+        let why := if must then some s!"accepted a protocol-violating segment (seq={h.seqNum} ack={h.getAck} beg={h.beg} cont={h.cont} fin={h.fin} mgmt={h.mgmt} len={h.msgLen} payload={payload.length} view={repr g.view})" else none
         let v := g.view
         let remBase := if h.beg then h.msgLen else v.remaining
         let v' : Spec.View := { v with
@@ -337,6 +341,15 @@ def step (st : St) (line : String) : St × String :=
         let d := e.s.isAckDue st.link.now ackTimeoutSecs
         let mo := if d then "1" else "0"
         let why := if ackOverdue g st.now && res = "0" then some "acknowledgement pending past the deadline but is_ack_due = false" else none
+        (st, verdict (wb why false) mo out)
+      | "tmo", [] =>
+        -- `Btp::timeout()`: the connection idle timeout (`Session::is_timed_out`, 30 s)
+        let d := e.timeout st.link.now
+        let mo := if d then "1" else "0"
+        -- specification: the session may only be declared dead while one of our segments is
+        -- still awaiting an acknowledgement
+        let why := if res = "1" && g.hasWindow && g.view.outstanding == 0 then
+            some "the idle timeout fired although no segment is awaiting an acknowledgement" else none
         (st, verdict (wb why false) mo out)
       | _, _ => (st, "BAD op")
   | _ => (st, "BAD line")
